@@ -113,8 +113,11 @@ def r031(ctx, rid):
                     res = 'Ok(Some(%sCollectorResult::Delivery((%s.0, %s.1))))' % (CC, payload, payload)
                 else:
                     res = 'Ok(Some(%sCollectorResult::%s(%s)))' % (CC, kind, payload)
-                r.check('%s:%s:done' % (step, kind), 'self.kind = None' in d.effects and d.value_str() == res and call in d.effects, site, built=d.row(),
-                        expected={'do': [call, 'self.kind = None'], 'value': res})
+                # the collector is idle afterwards: the state was take()n (that leaves None) and nothing is stored back, or None is stored explicitly
+                stores = [e for e in d.effects if e.startswith('self.kind = ')]
+                idle_after = d.conds[0][0] == 'std::option::Option::take(self.kind)' and stores in ([], ['self.kind = None'])
+                r.check('%s:%s:done' % (step, kind), idle_after and d.value_str() == res and call in d.effects, site, built=d.row(),
+                        expected={'do': [call, 'self.kind = None (or left None by take())'], 'value': res})
                 keep = 'self.kind = Some(%sKind::%s(%s?.NeedMore.0))' % (CC, kind, call)
                 r.check('%s:%s:needmore' % (step, kind), keep in m.effects and m.value_str() == 'Ok(None)', site, built=m.row(), expected={'do': keep, 'value': 'Ok(None)'})
         # State::collect_header
